@@ -254,12 +254,12 @@ HARNESSES = [
 
     # ---------------------------------------------------------------- C10
     H('C10', 'c10_case_exact_n1', '$P::c10::case_exact::<1, 4, 3, _>', unwind=4, stubs=('str',), timeout=900, mem_gb=22,
-      unwindset=(('16binary_search_by', 13), ('17case_mapping_rule', 2), ('10next_match', 2), ('8try_fold', 5), ('18try_from_fn_erased', 5)),
+      unwindset=(('16binary_search_by', 13), ('8try_fold', 5), ('18try_from_fn_erased', 5), ('10next_match', 2), ('17case_mapping_rule', 2)),
       funcs=['common::case_mapping_rule (via UsernameCaseMapped::case_mapping_rule)', 'common::has_lowercase_mapping', 'char::is_lowercase',
              'char::to_lowercase (core::unicode conversions tables)'],
       bound='exactly one character, every Unicode scalar value', expect_unsat_cover=('COVER: unchanged 3/4-byte character first, mapped character last',)),
     H('C10', 'c10_case_exact_n2', '$P::c10::case_exact::<2, 8, 6, _>', unwind=7, stubs=('str',), tiers=T, timeout=3400, mem_gb=24,
-      unwindset=(('16binary_search_by', 13), ('17case_mapping_rule', 3), ('10next_match', 3), ('8try_fold', 5), ('18try_from_fn_erased', 5)),
+      unwindset=(('16binary_search_by', 13), ('8try_fold', 5), ('18try_from_fn_erased', 5), ('10next_match', 3), ('17case_mapping_rule', 3)),
       funcs=['common::case_mapping_rule', 'common::has_lowercase_mapping', 'char::is_lowercase', 'char::to_lowercase'],
       bound='exactly two characters, each any Unicode scalar value'),
     H('C10', 'c10_model_valid', '$P::c10::model_valid', unwind=13, timeout=600,
@@ -278,7 +278,8 @@ HARNESSES = [
     H('C10', 'c10_case_sigma_n4', '$P::c10::case_sigma::<4, 16, 12, _>', unwind=14, stubs=('str', 'case'), tiers=T, timeout=3000, mem_gb=20,
       funcs=['common::case_mapping_rule', 'common::has_lowercase_mapping', 'char::to_lowercase (iterator)'],
       bound='strings of 0..=4 characters over SIGMA_CASE'),
-    H('C10', 'c10_nick_one', '$P::c10::nick_one', unwind=4, unwindset=(('16binary_search_by', 13), ('17case_mapping_rule', 2), ('10next_match', 2), ('8try_fold', 5), ('18try_from_fn_erased', 5)),
+    H('C10', 'c10_nick_one', '$P::c10::nick_one', unwind=4, unwindset=(('16binary_search_by', 13), ('8try_fold', 5), ('18try_from_fn_erased', 5), ('10next_match', 2), ('17case_mapping_rule', 2)),
+      stubs=('str',), timeout=900, mem_gb=24,
       funcs=['common::case_mapping_rule (via Nickname::case_mapping_rule)', 'char::to_lowercase'],
       bound='one character, every Unicode scalar value'),
     # ---------------------------------------------------------------- C11
@@ -709,16 +710,39 @@ def by_name(name):
     return None
 
 
-HARNESSES.append(H('C01', 'c01_ctx_rules_n3', '$P::c01::ctx_rules::<3, 12, _>', unwind=6, stubs=('ctx',), timeout=1500, mem_gb=16,
-                   funcs=['all nine context::rule_* functions', 'context::get_context_rule'],
-                   bound='labels of 0..=3 characters, every character any Unicode scalar value; offset ANY usize; any rule'))
+_RULES = ['zwnj', 'zwj', 'middle_dot', 'keraia', 'hebrew', 'katakana', 'arabic', 'ext_arabic', 'registry']
+for _k, _r in enumerate(_RULES):
+    HARNESSES.append(H('C01', 'c01_ctx_%s_n3' % _r, '$P::c01::ctx_rules::<3, 12, %d, _>' % _k, unwind=6, stubs=('ctx',), timeout=1200, mem_gb=12,
+                       tiers=Q if _r not in ('registry', 'zwnj') else T,
+                       funcs=['context::rule_* #%d (%s)' % (_k, _r)],
+                       bound='labels of 0..=3 characters, every character any Unicode scalar value; offset ANY usize'))
+HARNESSES.append(H('C01', 'c01_ctx_zwnj_n2', '$P::c01::ctx_rules::<2, 8, 0, _>', unwind=5, stubs=('ctx',), timeout=1200, mem_gb=14,
+                   funcs=['context::rule_zero_width_nonjoiner'], bound='labels of 0..=2 characters, every character any Unicode scalar value; offset ANY usize'))
 for _src, _t in [('c14_pairing', Q), ('c14_pred_is_space', Q), ('c14_pred_is_unassigned', Q), ('c02_any_class_n4', Q),
-                 ('c12_nick_map_n3', Q), ('c12_opaque_map_n3', Q), ('c11_width_map_n3', Q), ('c10_case_sigma_n3', Q),
+                 ('c12_nick_map_n3', Q), ('c12_opaque_map_n3', Q), ('c11_width_one', Q), ('c10_case_sigma_n2', Q), ('c11_width_map_n3', T), ('c10_case_sigma_n3', T),
                  ('c13_stabilize_any_fn', Q), ('c05_opaque_enforce_n1', Q), ('c06_nickname_prepare_n1', Q), ('c04_username_preserved_enforce_n1', Q),
                  ('c07_const_nickname_k2', Q), ('c07_const_opaque_k1', Q), ('c09_bidi_rule_n4', Q),
                  ('c06_nickname_two_rounds_n1', T), ('c04_username_mapped_enforce_n1', T), ('c07_const_nickname_k1', T),
                  ('c12_nick_map_n5', T), ('c12_opaque_map_n5', T), ('c02_any_class_n6', T), ('c06_nickname_enforce_n2', T), ('c04_username_mapped_enforce_n2', T)]:
     HARNESSES.append(_c01(_src, _t))
+
+# measured memory budgets (ulimit -v, GB) = 1.4 x the peak RSS observed on the unchanged tree + 2 (mem_gb.json); the budget only
+# decides how many harnesses run side by side and when a run is declared out of memory (= inconclusive)
+import json as _json
+import os as _os
+try:
+    with open(_os.path.join(_os.path.dirname(_os.path.abspath(__file__)), 'mem_gb.json')) as _f:
+        _MEM = _json.load(_f)
+except (OSError, ValueError):
+    _MEM = {}
+for _h in HARNESSES:
+    _src = _h.name
+    if _h.name in _MEM:
+        _h.mem_gb = _MEM[_h.name]
+    elif _h.name.startswith('c01_'):
+        for _k in _MEM:
+            if _k.split('_', 1)[1] == _h.name.split('_', 1)[1]:
+                _h.mem_gb = _MEM[_k]
 
 PROPS = ['C%02d' % i for i in range(1, 19)]
 
